@@ -117,6 +117,12 @@ def oprfRange (A : Arith α) (cap : Nat) (eps delta : α) (sens : Nat) : Except 
   else if sens > cap then .error .badSensitivity
   else .ok ()
 
+/-- `find_smallest_n(big_delta, epsilon, small_delta)` as the code has it: `for n in big_delta..=MAX_SHIFT { if small_delta >=
+right_hand_side(n, …) { return n; } } MAX_SHIFT + 1` — the candidates `Δ, …, cap` and, when none of them meets the
+criterion, the SENTINEL `cap + 1`, which no admissible shift equals (translator item `c12.search.loop`). -/
+@[specialize] def findSmallestNCapped (A : Arith α) (cap bigDelta : Nat) (r smallDelta : α) : Nat :=
+  (findSmallestN A bigDelta r smallDelta (cap + 1 - bigDelta) bigDelta).getD (cap + 1)
+
 /-- `OPRFPaddingDp::new(ε, δ, Δ)`; returns `get_shift()`. `searchLimit` = number of candidates
 `find_smallest_n` tries (`cap + 1 − Δ` after the fix F11: the search stops above the largest admissible shift and
 reports `cap + 1`, which `TruncatedDoubleGeometric::new` rejects). `r = E.powf(−ε)`, `p = 1 − E.powf(−1/(1/ε))`. -/
@@ -124,7 +130,7 @@ def oprfNew (A : Arith α) (cap : Nat) (eps delta : α) (sens : Nat) (r p : α) 
   match oprfRange A cap eps delta sens with
   | .error e => .error e
   | .ok () =>
-    let n := (findSmallestN A sens r delta (cap + 1 - sens) sens).getD (cap + 1)
+    let n := findSmallestNCapped A cap sens r delta
     match truncatedNew A cap (A.div A.one eps) n p with
     | .ok d => .ok (d / 2)
     | .error e => .error e
